@@ -9,6 +9,7 @@ INVARIANT AssignExact
 INVARIANT RawEqualsFold
 INVARIANT NoZeroCommodity
 INVARIANT CanonicalOnly
+INVARIANT LookupCanonical
 INVARIANT NoStuck
 INVARIANT Emit
 CHECK_DEADLOCK FALSE
